@@ -243,6 +243,14 @@ class Decider:
             # constant false goal: violated under any model of the assumptions
         A = self.cone(goal, extra)
         ng = tm.bnot(goal)
+        if goal.is_const and not goal.val:
+            # a goal that folded to False along a path: the counterexample must be a model of the WHOLE path condition (the cone of a
+            # constant is empty), so that its replay takes the same path; if no such model is found at the hints the empty cone is used
+            full = self.assume + list(extra)
+            if full:
+                rb, model = self._phase_b(goal, full, rounds=2)
+                if rb == "sat":
+                    return dict(verdict="sat", phase="B", ms=1000 * (time.time() - t0), model=model)
         if not goal.is_const:
             # A0: EUF abstraction (over-approximates the models: unsat here is unsat of the real query)
             s = self._solver(self.t_short); memo = {}; ufs = {}
